@@ -108,7 +108,7 @@ def gen_schema(rng, want=None, types_upper=None, profile=None):
     '''
     profile = profile or {}
     shapes_all = ['one_one', 'one_many', 'reflexive', 'assoc_class', 'subsuper', 'shared_ref',
-                  'multi_key', 'reflexive_many', 'chain_key']
+                  'multi_key', 'reflexive_many', 'chain_key', 'alt_key', 'multi_key_twice', 'reflexive_twice']
     shapes = [s for s in shapes_all if rng.random() < profile.get('p_shape', 0.45)]
     for w in (want or []):
         if w not in shapes:
@@ -167,19 +167,63 @@ def gen_schema(rng, want=None, types_upper=None, profile=None):
         return a
 
     id_types = profile.get('id_types', ['unique_id', 'unique_id', 'unique_id', 'integer', 'string'])
+    p_phrase = profile.get('p_phrase', 0.12)
+
+    def phrases():
+        '''non-reflexive associations may carry phrases too: on both ends or on one end only'''
+        r = rng.random()
+        if r >= p_phrase:
+            return '', ''
+        return rng.choice([('has', 'belongs to'), ('owns', ''), ('', 'is owned by')])
+
+    def reflexive_phrases(a, b):
+        # a phrase may be missing on one end; the two ends always differ
+        r = rng.random()
+        if r < p_phrase / 2:
+            return a, ''
+        if r < p_phrase:
+            return '', b
+        return a, b
+
     for shape in shapes:
         idt = rng.choice(id_types)
         if shape in ('one_one', 'one_many'):
             a = mk_class(id_type=idt)
             b = mk_class(extra=[['A_Id', idt]], id_type=rng.choice(id_types))
-            assoc(b, ['A_Id'], a, ['Id'], shape == 'one_many', bools(), bools())
+            sp, tp = phrases()
+            assoc(b, ['A_Id'], a, ['Id'], shape == 'one_many', bools(), bools(), sp, tp)
         elif shape in ('reflexive', 'reflexive_many'):
             n = mk_class(extra=[['Prev_Id', idt]], id_type=idt, prefix='N')
             # the referring instance reads Prev_Id = Id of the instance it "succeeds"
             if shape == 'reflexive':
-                assoc(n, ['Prev_Id'], n, ['Id'], False, True, True, 'succeeds', 'precedes')
+                sp, tp = reflexive_phrases('succeeds', 'precedes')
+                assoc(n, ['Prev_Id'], n, ['Id'], False, True, True, sp, tp)
             else:
-                assoc(n, ['Prev_Id'], n, ['Id'], True, True, True, 'is_child_of', 'is_parent_of')
+                sp, tp = reflexive_phrases('is_child_of', 'is_parent_of')
+                assoc(n, ['Prev_Id'], n, ['Id'], True, True, True, sp, tp)
+        elif shape == 'reflexive_twice':
+            # two reflexive 1:1 associations on one class (e.g. document order and priority order)
+            n = mk_class(extra=[['Prev_Id', idt], ['Alt_Id', idt]], id_type=idt, prefix='N')
+            assoc(n, ['Alt_Id'], n, ['Id'], False, True, True, 'outranks', 'is outranked by')
+            assoc(n, ['Prev_Id'], n, ['Id'], False, True, True, 'succeeds', 'precedes')
+        elif shape == 'alt_key':
+            # one class referred to through two different identifiers by equally named referential attributes
+            t2 = rng.choice(['integer', 'string', 'unique_id'])
+            t = mk_class(extra=[['Code', t2]], id_type=idt)
+            uniques.append({'kind': t['kind'], 'name': 'I2', 'attrs': ['Code']})
+            a = mk_class(extra=[['T_Ref', idt]], id_type=rng.choice(id_types))
+            b = mk_class(extra=[['T_Ref', t2]], id_type=rng.choice(id_types))
+            assoc(a, ['T_Ref'], t, ['Id'], bools(), bools(), bools())
+            assoc(b, ['T_Ref'], t, ['Code'], bools(), bools(), bools())
+        elif shape == 'multi_key_twice':
+            # the same two-attribute identifier referred to by two associations that list the keys in different orders
+            t2 = rng.choice(['integer', 'string', 'unique_id'])
+            a = mk_class(extra=[['Id2', t2]], id_type=idt)
+            uniques.append({'kind': a['kind'], 'name': 'I2', 'attrs': ['Id', 'Id2']})
+            b = mk_class(extra=[['A_Id', idt], ['A_Id2', t2]], id_type=rng.choice(id_types))
+            c = mk_class(extra=[['A_Id', idt], ['A_Id2', t2]], id_type=rng.choice(id_types))
+            assoc(b, ['A_Id', 'A_Id2'], a, ['Id', 'Id2'], bools(), bools(), bools())
+            assoc(c, ['A_Id2', 'A_Id'], a, ['Id2', 'Id'], bools(), bools(), bools())
         elif shape == 'assoc_class':
             a = mk_class(id_type=idt)
             b = mk_class(id_type=idt)
@@ -344,6 +388,9 @@ class RefStore(object):
                 if a['src'].upper() != c['kind'].upper():
                     continue
                 if not all(k in given_refs for k in a['src_keys']):
+                    continue
+                # null referential values refer to nothing (same rule as the loader join)
+                if any(is_null_key(given_refs[k], self.schema.attr_type(c['kind'], k)) for k in a['src_keys']):
                     continue
                 for t in self.live(a['tgt']):
                     if all(self.getattr(t, tk) == given_refs[sk]
